@@ -240,3 +240,6 @@ def order(ctx):
 
 
 GROUPS += [guard(blocks), guard(order)]
+# C07.order looks at the SEQUENCE OF INTERNAL CALLS of enrol (which block update, with which arguments): a device, not the
+# property; its semantic counterpart is the bounded exact-rational check that enrol(k) equals k sweeps of block maximisation
+INTERNAL = [("C07.order", "bounded_enroll_blocks", [])]
